@@ -98,6 +98,12 @@ func c07Pair(r *rt.Rec, lib *dilithium.Dilithium, ref *dilref.Key, seed [48]byte
 			nontrivial = true
 		}
 	}
+	if len(att) >= 30 {
+		k := fmt.Sprintf("attempts>=%d", len(att)/8*8)
+		r.Count("boundary_long_rejection_run", 1)
+		r.Max("max_attempts_for_one_signature", int64(len(att)))
+		kindsSeen = append(kindsSeen, k)
+	}
 	if len(kindsSeen) > 0 && len(msg) <= 140 {
 		r.Observe("boundary_witnesses", fmt.Sprintf(`{"seed":"%s","msg":"%s","kinds":"%s"}`, cs.Seed, cs.Msg, strings.Join(kindsSeen, ",")))
 	}
@@ -135,6 +141,21 @@ func c07Pair(r *rt.Rec, lib *dilithium.Dilithium, ref *dilref.Key, seed [48]byte
 	sealed, err := lib.Seal(msg)
 	if err != nil || !bytes.Equal(sealed[:dilithium.CryptoBytes], exp) || !bytes.Equal(sealed[dilithium.CryptoBytes:], msg) {
 		r.Violate("C07/seal", "Seal output is not reference signature || message", cs, "", "")
+		return false
+	}
+	// the caller owns what Seal returned: scribbling over it (signature half and message half, also through
+	// the Extract* sub-slices) must not change what the key signs next
+	for i := range sealed {
+		sealed[i] ^= 0xA5
+	}
+	em := dilithium.ExtractMessage(sealed)
+	for i := range em {
+		em[i] = 0x11
+	}
+	sig3, _ := lib.Sign(msg)
+	sealed2, _ := lib.Seal(msg)
+	if !bytes.Equal(sig3[:], exp) || !bytes.Equal(sealed2[:dilithium.CryptoBytes], exp) || !bytes.Equal(sealed2[dilithium.CryptoBytes:], msg) {
+		r.Violate("C07/aliased-buffer", "after the caller overwrote the slice returned by Seal, signing the same message again gives a different result", cs, "", "")
 		return false
 	}
 	r.Count("signatures_equal", 1)
@@ -276,6 +297,25 @@ func c07Histories(j *rt.Job, rng *rt.Rand, r *rt.Rec) {
 		msgs[m] = dilMsg(rng, rng.Intn(40))
 	}
 	first := map[[2]int][]byte{}
+	// sealed messages are kept as returned (not copied): later calls must not change them
+	type held struct {
+		b []byte
+		d string
+	}
+	var kept []held
+	for k := 0; k < nk; k++ {
+		sm, _ := libs[k].Seal(msgs[k%nm])
+		kept = append(kept, held{sm, rt.Digest(sm)})
+	}
+	defer func() {
+		for i, h := range kept {
+			if rt.Digest(h.b) != h.d {
+				r.Violate("C07/aliased-buffer", fmt.Sprintf("the sealed message returned earlier to the caller (key %d) was changed by later calls", i), jobCase(j), "", "")
+				return
+			}
+		}
+		r.Count("held_sealed_messages_unchanged", int64(len(kept)))
+	}()
 	for order := 0; order < 3; order++ {
 		var seq [][2]int
 		for k := 0; k < nk; k++ {
@@ -363,4 +403,33 @@ func c07Replay(cs map[string]interface{}) (bool, string) {
 		return true, res.Violations[0].What
 	}
 	return false, "key and signature equal the reference"
+}
+
+// Hidden developer sub-command: mon C07search <seed> <signatures> <min attempts>
+// Looks, with the LIBRARY's signer and the attempt-counter hook, for (key, message) pairs whose rejection
+// loop runs unusually long, and prints corpus lines. The library is only the search engine here: every
+// witness is re-classified by dilref when a check uses it.
+func init() {
+	if len(os.Args) >= 5 && os.Args[1] == "C07search" {
+		var seed uint64
+		var n, min int
+		fmt.Sscan(os.Args[2], &seed)
+		fmt.Sscan(os.Args[3], &n)
+		fmt.Sscan(os.Args[4], &min)
+		rng := rt.NewRand(seed, "C07search")
+		for done := 0; done < n; {
+			ks := rng.Seed48()
+			d := dilLibKey(ks)
+			for m := 0; m < 2000 && done < n; m++ {
+				msg := rng.Bytes(8)
+				before := dilithium.VerifSignAttempts
+				d.Sign(msg)
+				done++
+				if a := int(dilithium.VerifSignAttempts - before); a >= min {
+					fmt.Printf(`{"seed":"%s","msg":"%s","kinds":"attempts>=%d"}`+"\n", rt.Hex(ks[:]), rt.Hex(msg), a/8*8)
+				}
+			}
+		}
+		os.Exit(0)
+	}
 }
